@@ -602,7 +602,7 @@ package avro
 //@   modifies BH, type deflate, type snappyCodec
 //@   emits WB(w, block, rowCount, err)
 
-//@ spec encInv(e ptr) bool = e != nil && e.wb != nil && e.fw != nil && e.codec != nil && wfc(e.codec) && e.w != nil && wfFW(e.fw) \
+//@ spec encInv(e ptr) bool = e != nil && e.wb != nil && e.fw != nil && e.codec != nil && wfc(e.codec) && typed(e.codec) && e.w != nil && wfFW(e.fw) \
 //@      && 0 <= e.count && e.count < 1<<62 && (e.count == 0 ==> len(e.wb.buf) == 0) && !cowned(e.wb.buf) \
 //@      && base(e.wb.buf) != base(sub(e.fw.varintBuf, 0, 0)) && base(e.wb.buf) != base(sub(e.fw.sync, 0, 0))
 
